@@ -223,7 +223,19 @@ def _checks(ctx):
     elif k == "VWAP":
         tp = [(c.high + c.low + c.close) / 3.0 for c in cs]
         # reported separately: with no volume so far the average is undefined and hexital stores 0.0
-        yield from _avg_in_range(ctx, tp, None, lambda st: u, "vwap-zero-without-volume")
+        # with no volume so far the volume-weighted average is undefined (hexital stores 0.0 by design):
+        # "averages lie within the range of their inputs" is only demanded once there is volume
+        # (DESIGN.md, corrected false alarms)
+        vol = 0
+        first = None
+        for i_, c_ in enumerate(cs):
+            vol += c_.volume
+            if vol > 0:
+                first = i_
+                break
+        if first is not None:
+            masked = [None if i_ < first else t for i_, t in enumerate(tp)]  # zero-volume prefix carries no weight
+            yield from _avg_in_range(ctx, masked, None, lambda st: u, "vwap-out-of-input-range")
     elif k == "OBV":
         prev = None
         for i, v in enumerate(ctx.series()):
